@@ -163,7 +163,7 @@ def job_memdata(length, dw, endianness, via=None, cpu_dw=None):
     return run_pysym("mem_data_len%d_dw%d_%s%s" % (length, dw, endianness, "" if via is None else "_via_builder_cpu%d" % cpu_dw), body, ["word_count", "every_file_byte_at_the_lane_the_cpu_reads_and_padding_zero"],
                      required_events=["packed"], funcs=FUNCS, cfg=dict(file_length=length, data_width=dw, endianness=endianness,
                      lane_convention="32-bit sub-word s of a wider word at bits [32s,32s+32); inside it byte a%4 at lane a%4 (little) / 3-a%4 (big)"),
-                     replay_dir=os.environ.get("VERIF_REPLAY_DIR") or None, timeout_ms=180000)
+                     replay_dir=os.environ.get("VERIF_REPLAY_DIR") or None, timeout_ms=600000)
 
 
 
